@@ -1,16 +1,19 @@
 SPECIFICATION Spec
 CONSTANTS
-  D = 7
-  Mode = "pairs"
+  D = 6
+  Mode = "families"
   Width = 2
   Foreigns = FALSE
-  Wraps = FALSE
-  WrapMax = 0
+  Wraps = TRUE
+  WrapMax = 1
   ForeignVals <- ForeignValsQuick
   ForeignBase <- ForeignBaseQuick
   WithAcc = FALSE
-  ExportMode = "verdict"
+  ExportMode = "errors"
+INVARIANT C05Static
 INVARIANT EmptyAccepts
 INVARIANT NoSurprises
 INVARIANT ExportInv
+PROPERTY C05Step
+PROPERTY C10Step
 CHECK_DEADLOCK FALSE
